@@ -7,7 +7,13 @@ EXPLANATION = ("A1 start(): on the path where one of the caller's controls has t
                "the caller's controls *without* a paging control, the stream's own handle gets those controls plus PagedResults{size: "
                "self.page_size, cookie: empty}, base/scope/filter/attrs are saved from the same-named parameters and the upcall receives "
                "them in order; A2 next(): anything but Ok(None) is returned unchanged; on Ok(None) the response control is looked up by "
-               "ControlType::PagedResults in the stored result and parsed as PagedResults; an empty cookie removes exactly that control and "
+               "ControlType::PagedResults in the stored result and parsed as PagedResults - on every path on which the page's result is "
+               "present, whatever it holds: no test on the way from the upstream's Ok(None) to the end / the follow-up / the removal (an `if`, "
+               "a match guard, a literal or range inside a pattern - a pattern with several refutable parts that fails is followed once per "
+               "part that can fail) reads the result code or any other field of the result than its control list, of a control anything "
+               "but its type, of the parsed paging control anything but the cookie; an empty cookie removes exactly that control - the "
+               "first control of the paging type in the list, the one whose cookie was examined; a second paging control in the same "
+               "result, which RFC 2696 does not provide for, is neither examined nor removed - and "
                "ends; a non-empty cookie issues streaming_search(self.base, self.scope, self.filter, self.attrs) on a clone of the saved "
                "handle (timeout, options copied) whose controls are - element by element, whatever pushes, pops, truncations, retains the "
                "code applies to the vector, on an owned copy or through a `&mut` into the saved handle - every saved control followed by one "
@@ -24,7 +30,9 @@ EXPLANATION = ("A1 start(): on the path where one of the caller's controls has t
                "number of pages, exactly-once delivery over a run, termination.")
 TRUSTED = ['the server returns cookies as RFC 2696 says', 'C19 (paging control codec)', 'C10 (stream state machine)']
 UNDECIDED = ['exactly-once delivery / number of pages / termination over a run (runtime quantities)']
-ASSUMPTIONS = ['a generic control stands for every element of the control lists']
+ASSUMPTIONS = ['a generic control stands for every element of the control lists',
+               'a SearchResultDone carries the paging control at most once (RFC 2696 section 3: the server returns one); of two the adapter examines and removes '
+               'only the first, the final result then still holds the second']
 SHARED = [('C02', ('M1.', 'S.request-shape'), 'A4.options-reach-the-adapter'),
           # "each entry exactly once; follow-ups are issued only at the end of a page with that page's cookie": the adapter takes Ok(None)
           # from the inner stream for "this page is complete, its result is in stream.res".  That holds only if next_inner answers
@@ -73,29 +81,46 @@ RESULT_FIELD = {'rc': 'result code', 'matched': 'matched DN', 'text': 'diagnosti
 
 def foreign_tests(o):
     """The tests on a path (atoms of its path condition) that read something of the ended page's result other than what C16 lets the
-    page end depend on, as (what is read, atom, truth): a field of the result that is not its control list; of a control, anything
-    but its type (the `Option<ControlType>` / the OID in the raw control); of the parsed paging control, anything but the cookie.
-    Read off the terms (a place below stream.res' payload), so an `if`, a match guard and a literal inside a pattern are the same."""
-    out = []
+    page end depend on, as (what is read, atom, truth): a field of the result that is not its control list, or the result as a
+    whole handed to a function; of a control, anything but its type (the `Option<ControlType>` / the OID in the raw control); of
+    the parsed paging control, anything but the cookie.  Read off the terms (a place below stream.res' payload), so an `if`, a
+    match guard and a literal inside a pattern are the same."""
+    CTRLS = ('field', RES0, 'ctrls')
     def is_elem(x):
         while isinstance(x, tuple) and x and x[0] in ('field', 'variant', 'elem', 'enumerate', 'index'):
-            if x == ('field', RES0, 'ctrls'):
+            if x == CTRLS:
                 return True
             x = x[1]
         return False
+    def reads(x, parent, found):
+        if not isinstance(x, tuple) or not x:
+            return
+        if x == CTRLS:
+            return
+        if x == RES0:
+            if parent is not None and parent[0] == 'field' and parent[1] == RES0:
+                found.append(RESULT_FIELD.get(parent[2], 'field `%s`' % parent[2]))
+            elif parent is not None and parent[0] == 'call':
+                found.append('result as a whole (through `%s`)' % str(parent[1]).rsplit('::', 1)[-1])
+            else:
+                found.append('result as a whole')
+            return
+        if x[0] == 'field' and len(x) == 3 and isinstance(x[1], tuple) and x[1]:
+            if x[2] in ('crit', 'val') and is_elem(x[1]):
+                found.append('control\'s `%s`' % x[2])
+            elif x[2] != 'cookie' and x[1][0] == 'call' and x[1][1] == 'ldap3::controls_impl::RawControl::parse' and absx.leaves(x[1], lambda y: y == CTRLS):
+                found.append('paging control\'s `%s`' % x[2])
+        tagged = isinstance(x[0], str)       # an argument tuple is not a term of its own: its members' parent is the call
+        for y in x:
+            reads(y, x if tagged else parent, found)
+    out, seen = [], set()
     for a, t in o.st.pc:
-        for x in absx.leaves(a, lambda x: x[0] == 'field' and len(x) == 3):
-            if x[1] == RES0 and x[2] != 'ctrls':
-                out.append((RESULT_FIELD.get(x[2], 'field `%s`' % x[2]), a, t))
-            elif x[2] in ('crit', 'val') and is_elem(x[1]):
-                out.append(('control\'s `%s`' % x[2], a, t))
-            elif x[2] != 'cookie' and x[1][0] == 'call' and x[1][1] == 'ldap3::controls_impl::RawControl::parse' and absx.leaves(x[1], lambda y: y == ('field', RES0, 'ctrls')):
-                out.append(('paging control\'s `%s`' % x[2], a, t))
-    seen, uniq = set(), []
-    for w, a, t in out:
-        if (w, a) not in seen:
-            seen.add((w, a)); uniq.append((w, a, t))
-    return uniq
+        found = []
+        reads(a, None, found)
+        for w in found:
+            if (w, a) not in seen:
+                seen.add((w, a)); out.append((w, a, t))
+    return out
 
 def rooted_in(t, root):
     """t is a place below root: root itself, a field of it, the payload of an Option in it ..."""
